@@ -188,4 +188,132 @@ theorem binaryRevWith_init (kf kb X Y Z s : ℝ) (hkf : kf ≠ 0) (hs : s ≠ 0)
   field_simp
   ring
 
+/-! ### binary_irrev_cstr -/
+
+/-- the argument of `atanh` in `binary_irrev_cstr` -/
+noncomputable def cstrArg (k r fr fv : ℝ) : ℝ :=
+  (-fv ^ ((3:ℝ) * 1 / 2) * √(fv + fr * (8 * k)) - 4 * k * r * (√fv * √(fv + fr * (8 * k)))) / (fv ^ 2 + fv * (fr * (8 * k)))
+
+/-- `binary_irrev_cstr` with the constants `x7 = c`, `x1 = a` (= √fv), `x4 = b` (= √(fv + 8·k·fr)) as parameters -/
+noncomputable def cstrWith (c a b t k r p fr fp fv n : ℝ) : ℝ × ℝ :=
+  (1 / k * (-fv + a * b * Real.tanh (t * (a * b / 2) - c)) / 4,
+   1 / k * (fv * (n * Real.exp (fv * t)) + 8 * k * p + r * (4 * k * n)
+        - a * (n * Real.exp (fv * t)) * b * Real.tanh (a * b / 2 * (t - 2 * c / (a * b)))
+        + fr * (4 * k * n) * Real.exp (fv * t) - fr * (4 * k * n) + Real.exp (fv * t) * (fp * (8 * k)) - fp * (8 * k))
+      * Real.exp (-(fv * t)) / 8)
+
+theorem binaryIrrevCstr_eq_with (t k r p fr fp fv n : ℝ) :
+    binaryIrrevCstr t k r p fr fp fv n
+      = cstrWith (Real.artanh (cstrArg k r fr fv)) (√fv) (√(fv + fr * (8 * k))) t k r p fr fp fv n := by
+  simp only [binaryIrrevCstr, cstrWith, cstrArg, NumReal.exp_def, NumReal.sqrt_def, NumReal.tanh_def, NumReal.atanh_def,
+    NumReal.rpow_def, NumReal.npow_eq_pow, Nat.cast_ofNat, Nat.cast_one]
+
+theorem cstrWith_fst_hasDerivAt (c a b t k r p fr fp fv n : ℝ) (hk : k ≠ 0) (ha : a ^ 2 = fv) (hb : b ^ 2 = fv + fr * (8 * k)) :
+    HasDerivAt (fun s => (cstrWith c a b s k r p fr fp fv n).1)
+      (fv * fr - fv * (cstrWith c a b t k r p fr fp fv n).1 - 2 * k * (cstrWith c a b t k r p fr fp fv n).1 ^ 2) t := by
+  simp only [cstrWith]
+  have hlin : HasDerivAt (fun s : ℝ => s * (a * b / 2) - c) (a * b / 2) t := by
+    simpa using ((hasDerivAt_id t).mul_const (a * b / 2)).sub_const c
+  have h := ((((hlin.tanh).const_mul (a * b)).const_add (-fv)).const_mul (1 / k)).div_const 4
+  refine h.congr_deriv ?_
+  generalize Real.tanh (t * (a * b / 2) - c) = T
+  subst ha
+  obtain rfl : fr = (b ^ 2 - a ^ 2) / (8 * k) := by field_simp; linarith
+  field_simp
+  ring
+
+theorem cstrWith_snd_hasDerivAt (c a b t k r p fr fp fv n : ℝ) (hk : k ≠ 0) (ha0 : a ≠ 0) (hb0 : b ≠ 0)
+    (ha : a ^ 2 = fv) (hb : b ^ 2 = fv + fr * (8 * k)) :
+    HasDerivAt (fun s => (cstrWith c a b s k r p fr fp fv n).2)
+      (fv * fp + n * k * (cstrWith c a b t k r p fr fp fv n).1 ^ 2 - fv * (cstrWith c a b t k r p fr fp fv n).2) t := by
+  simp only [cstrWith]
+  have hE := hasDerivAt_exp_lin (g := fun s => fv * s) fv t (fun s => rfl)
+  have hEn := hasDerivAt_exp_lin (g := fun s => -(fv * s)) (-fv) t (fun s => by ring)
+  have hlin : HasDerivAt (fun s : ℝ => a * b / 2 * (s - 2 * c / (a * b))) (a * b / 2) t := by
+    simpa using ((hasDerivAt_id t).sub_const (2 * c / (a * b))).const_mul (a * b / 2)
+  have hT := hlin.tanh
+  have t1 := (hE.const_mul n).const_mul fv
+  have t4 := (((hE.const_mul n).const_mul a).mul_const b).mul hT
+  have t5 := hE.const_mul (fr * (4 * k * n))
+  have t7 := hE.mul_const (fp * (8 * k))
+  have hG := ((((((t1.add_const (8 * k * p)).add_const (r * (4 * k * n))).sub t4).add t5).sub_const (fr * (4 * k * n))).add t7).sub_const
+    (fp * (8 * k))
+  have h := (((hG.const_mul (1 / k)).mul hEn)).div_const 8
+  refine h.congr_deriv ?_
+  have harg : a * b / 2 * (t - 2 * c / (a * b)) = t * (a * b / 2) - c := by field_simp
+  simp only [Pi.add_apply, Pi.sub_apply, Pi.mul_apply]
+  rw [harg]
+  have hEne : Real.exp (-(fv * t)) = (Real.exp (fv * t))⁻¹ := Real.exp_neg _
+  rw [hEne]
+  have hE0 : Real.exp (fv * t) ≠ 0 := (Real.exp_pos _).ne'
+  generalize Real.exp (fv * t) = E at hE0 ⊢
+  generalize Real.tanh (t * (a * b / 2) - c) = T
+  subst ha
+  obtain rfl : fr = (b ^ 2 - a ^ 2) / (8 * k) := by field_simp; linarith
+  field_simp
+  ring
+
+theorem rpow_three_halves (x : ℝ) (hx : 0 ≤ x) : x ^ ((3:ℝ) * 1 / 2) = x * √x := by
+  have h : (3:ℝ) * 1 / 2 = 1 + 1 / 2 := by norm_num
+  rw [h, Real.rpow_add' hx (by norm_num), Real.rpow_one, ← Real.sqrt_eq_rpow]
+
+/-- the `atanh` argument is `−(fv + 4·k·r) / (√fv · √(fv + 8·k·fr))` -/
+theorem cstrArg_eq (k r fr fv : ℝ) (hfv : 0 < fv) (hrad : 0 < fv + fr * (8 * k)) :
+    cstrArg k r fr fv = -(fv + 4 * k * r) / (√fv * √(fv + fr * (8 * k))) := by
+  unfold cstrArg
+  rw [rpow_three_halves fv hfv.le]
+  have ha2 : √fv ^ 2 = fv := Real.sq_sqrt hfv.le
+  have hb2 : √(fv + fr * (8 * k)) ^ 2 = fv + fr * (8 * k) := Real.sq_sqrt hrad.le
+  have ha0 : 0 < √fv := Real.sqrt_pos.mpr hfv
+  have hb0 : 0 < √(fv + fr * (8 * k)) := Real.sqrt_pos.mpr hrad
+  generalize √fv = a at *
+  generalize √(fv + fr * (8 * k)) = b at *
+  have hden : fv ^ 2 + fv * (fr * (8 * k)) = a ^ 2 * b ^ 2 := by rw [ha2, hb2]; ring
+  rw [hden]
+  subst ha2
+  field_simp
+  ring
+
+/-- EXACT domain of the closed form: the `atanh` argument lies in (−1, 1) iff the initial concentration `r` is below
+the steady state, i.e. `2·k·r² + fv·r < fv·fr` -/
+theorem cstrArg_mem_Ioo_iff (k r fr fv : ℝ) (hk : 0 < k) (hr : 0 ≤ r) (hfv : 0 < fv) (hfr : 0 ≤ fr) :
+    cstrArg k r fr fv ∈ Set.Ioo (-1) 1 ↔ 2 * k * r ^ 2 + fv * r < fv * fr := by
+  have hrad : 0 < fv + fr * (8 * k) := by positivity
+  rw [cstrArg_eq k r fr fv hfv hrad]
+  have ha2 : √fv ^ 2 = fv := Real.sq_sqrt hfv.le
+  have hb2 : √(fv + fr * (8 * k)) ^ 2 = fv + fr * (8 * k) := Real.sq_sqrt hrad.le
+  have ha0 : 0 < √fv := Real.sqrt_pos.mpr hfv
+  have hb0 : 0 < √(fv + fr * (8 * k)) := Real.sqrt_pos.mpr hrad
+  generalize √fv = a at *
+  generalize √(fv + fr * (8 * k)) = b at *
+  have hab : 0 < a * b := mul_pos ha0 hb0
+  have hnum : 0 < fv + 4 * k * r := by positivity
+  have hsq : (a * b) ^ 2 = fv * (fv + fr * (8 * k)) := by rw [mul_pow, ha2, hb2]
+  rw [Set.mem_Ioo, neg_div, neg_lt_neg_iff, div_lt_one hab]
+  constructor
+  · rintro ⟨h1, -⟩
+    have : (fv + 4 * k * r) ^ 2 < (a * b) ^ 2 := by
+      apply pow_lt_pow_left₀ h1 hnum.le; norm_num
+    rw [hsq] at this
+    nlinarith
+  · intro h
+    refine ⟨?_, ?_⟩
+    · by_contra hcon
+      have hcon := not_lt.mp hcon
+      have : (a * b) ^ 2 ≤ (fv + 4 * k * r) ^ 2 := pow_le_pow_left₀ hab.le hcon 2
+      rw [hsq] at this
+      nlinarith
+    · have : 0 < (fv + 4 * k * r) / (a * b) := div_pos hnum hab
+      linarith
+
+theorem cstrWith_init (a b k r p fr fp fv n : ℝ) (hk : k ≠ 0) (ha0 : a ≠ 0) (hb0 : b ≠ 0)
+    (x : ℝ) (hx : x ∈ Set.Ioo (-1 : ℝ) 1) (hxe : x = -(fv + 4 * k * r) / (a * b)) :
+    cstrWith (Real.artanh x) a b 0 k r p fr fp fv n = (r, p) := by
+  have harg : a * b / 2 * (0 - 2 * Real.artanh x / (a * b)) = -Real.artanh x := by field_simp; ring
+  simp only [cstrWith]
+  rw [harg]
+  simp only [zero_mul, zero_sub, mul_zero, neg_zero, Real.exp_zero, mul_one, Real.tanh_neg, Real.tanh_artanh hx]
+  subst hxe
+  refine Prod.ext ?_ ?_ <;> simp only <;> field_simp <;> ring
+
 end ChemModel.Integrated
